@@ -90,6 +90,12 @@ func (s *SpokFile) expandGlobs() error {
 	return nil
 }
 
+// ExpandGlobs expands every glob pattern declared in the spokfile (dependencies and outputs)
+// into the Globs map, it is what Run does before anything else.
+func (s *SpokFile) ExpandGlobs() error {
+	return s.expandGlobs()
+}
+
 // buildGraph takes in a list of requested tasks, examines their dependencies, constructs
 // and returns the dependency graph.
 func (s *SpokFile) buildGraph(requested ...string) (*dag.Graph[string, task.Task], error) {
